@@ -24,3 +24,4 @@ TRUSTED = ["the reference chunked reader / event-stream interpreter in harness/C
            "the extraction rule of lib/vf.py (//@extract): the block between two unique marker lines of Response::send is copied verbatim into a harness function on every run"]
 ASSUMPTIONS = ["dropped by the extraction and NOT under contract: the await points of the loop (stream.next(), write_all, flush), i.e. every producer schedule / pacing question, the response head (Transfer-Encoding: chunked is set by set_stream_raw) and the final `0 CRLF CRLF` write, which the harness appends itself",
                "messages restricted to ASCII of length <= 3, at most 2 messages"]
+JOBS = 6   # several of these queries need 5-10 GB: 16 at once exhaust the machine
